@@ -345,6 +345,21 @@ func runCaseMode(t *rapid.T, c *ev.Case, dense, layers bool) {
 					q.GroupAll, q.GroupBy = true, nil
 				}
 			}
+			if q.Interval == 0 && q.Field == nil && !q.Exact {
+				fl, fields := false, map[string]bool{}
+				for _, cc := range q.Sel {
+					fields[cc.Field] = true
+					if cc.Func == "first" || cc.Func == "last" {
+						fl = true
+					}
+				}
+				if fl && len(fields) >= 2 {
+					// KNOWN FINDING C09-multicall-last-across-memtable-and-file (several calls on different fields incl. first/last,
+					// served from statistics, rows in the memtable and in files): searched with the exact hint only
+					c.Excluded("known:C09-K")
+					q.Exact = true
+				}
+			}
 			if q.Field != nil && !g.noOverwrite {
 				// KNOWN FINDING C08-I (field predicates evaluated on per-generation row fragments)
 				c.Excluded("known:C08-I")
